@@ -23,6 +23,10 @@ pub struct Case {
     pub b: CircSpec,
     /// simplifier applied to the graphs before the graph-level check: 0 none 1 clifford 2 full 3 flow
     pub gsimp: u8,
+    /// 0 unitary pair; 1 the same qubits of both circuits start as |0> ancillas (isometries);
+    /// 2 the same qubits of both are post-selected at the end (co-isometries); 3 both
+    #[serde(default)]
+    pub nonsquare: u8,
 }
 
 fn adjoint_gate(g: &MGate) -> MGate {
@@ -175,6 +179,8 @@ struct TruthPair {
     projective: bool,
     /// float only: too close to the tolerance to call
     borderline: bool,
+    /// the pair is outside the domain in which 'equal' is claimed to be sound
+    skip_true: bool,
 }
 
 fn truth(a: &Circ, b: &Circ) -> TruthPair {
@@ -184,6 +190,7 @@ fn truth(a: &Circ, b: &Circ) -> TruthPair {
             equal: false,
             projective: false,
             borderline: false,
+            skip_true: false,
         };
     }
     if a.all_phases_quarter() && b.all_phases_quarter() {
@@ -194,6 +201,7 @@ fn truth(a: &Circ, b: &Circ) -> TruthPair {
             equal: ta == tb,
             projective: proportional_exact(&ta, &tb),
             borderline: false,
+            skip_true: false,
         }
     } else {
         let ta = csim::simulate::<C64>(a).expect("sim").data;
@@ -207,6 +215,7 @@ fn truth(a: &Circ, b: &Circ) -> TruthPair {
             equal: eq_tight,
             projective: pr_tight,
             borderline: eq_tight != eq_loose || pr_tight != pr_loose,
+            skip_true: false,
         }
     }
 }
@@ -225,6 +234,11 @@ fn judge(
         }
         Some(true) => {
             obs.class("answer:equal");
+            if t.skip_true {
+                // not unitary: A^dagger B proportional to the identity does not imply A = B (the
+                // scalar may be smaller than 1), and the property claims 'equal' for unitaries only
+                return Ok(());
+            }
             let ok = if up_to_phase { t.projective } else { t.equal };
             if ok {
                 Ok(())
@@ -258,7 +272,37 @@ fn judge(
 }
 
 fn check(c: &Case, obs: &mut Obs) -> Result<(), String> {
-    let (a, b, rel) = derive(c);
+    let (mut a, mut b, rel) = derive(c);
+    // circuit-derived diagrams with different numbers of inputs and outputs: the same ancillas /
+    // post-selections on both sides
+    let mode = c.nonsquare % 4;
+    if mode != 0 {
+        let n = a.n.min(b.n);
+        let pick = |salt: u16| -> Vec<usize> {
+            let mut qs: Vec<usize> = (0..n).filter(|&q| (c.pos.rotate_left(salt as u32) >> (q % 16)) & 1 == 1).collect();
+            if qs.is_empty() {
+                qs.push(c.pos as usize % n);
+            }
+            qs
+        };
+        for m in [&mut a, &mut b] {
+            if mode & 1 == 1 {
+                for (i, &q) in pick(3).iter().enumerate() {
+                    m.gates.insert(i, MGate::new(GK::InitAnc, vec![q]));
+                }
+            }
+            if mode & 2 == 2 {
+                for &q in pick(7).iter() {
+                    m.gates.push(MGate::new(GK::PostSel, vec![q]));
+                }
+            }
+        }
+        obs.class(match mode {
+            1 => "nonsquare:ancillas",
+            2 => "nonsquare:post-selected",
+            _ => "nonsquare:both",
+        });
+    }
     obs.class(match rel {
         "independent" => "rel:independent",
         "identical" => "rel:identical",
@@ -274,7 +318,8 @@ fn check(c: &Case, obs: &mut Obs) -> Result<(), String> {
         "wire-permutation" => "rel:wire-permutation",
         _ => "rel:different-arity",
     });
-    let t = truth(&a, &b);
+    let mut t = truth(&a, &b);
+    t.skip_true = mode != 0;
     if t.borderline {
         obs.skip("float-borderline");
         return Ok(());
@@ -382,20 +427,22 @@ pub fn def(ctx: &Ctx) -> PropertyDef {
                     ..p.clone()
                 }),
                 0u8..4,
+                prop_oneof![5 => Just(0u8), 1 => Just(1u8), 1 => Just(2u8), 1 => Just(3u8)],
             )
-                .prop_map(|(a, relation, pos, extra, b, gsimp)| Case {
+                .prop_map(|(a, relation, pos, extra, b, gsimp, nonsquare)| Case {
                     a,
                     relation,
                     pos,
                     extra,
                     b,
                     gsimp,
+                    nonsquare,
                 })
         }
     };
     PropertyDef {
         id: "C12",
-        rule: "pairs of unitary circuits: independent; equal by construction (copy, re-extraction, inserted cancelling pair, commuted disjoint gates, basic-gate expansion, swap as three CNOTs); differing by one gate, by a global phase -1 (XZXZ), by a global phase e^{i pi/2^k} with k = 17..26 (4.7e-8 .. 2.4e-5 rad; float truth is definite for differences above 3e-8 and below 1e-10, in between the pair is skipped as borderline), by a Hadamard on a wire, by a wire permutation, by arity. Truth from the harness simulator (exact equality and equality up to a scalar). equal_circuit_with_options / equal_graph_with_options (graphs optionally pre-simplified) with and without global phase, the shorthands equal_circuit / equal_graph (= up to global phase) and equal_*_dim: Some(true) => truth, Some(false) => not equal (or arities differ), None always allowed and counted; equal_circuit_tensor / equal_graph_tensor <=> identical tensors (exact phases). Non-trivial = a definite answer on a pair that is not syntactically identical. Distinct by hash of the case.",
+        rule: "pairs of unitary circuits, and the same pairs with identical |0> ancillas and/or <0| post-selections on both sides (non-unitary, so only 'not equal', the tensor checks and the arity tests are judged for them - the cancel-out method is claimed sound for unitaries only): independent; equal by construction (copy, re-extraction, inserted cancelling pair, commuted disjoint gates, basic-gate expansion, swap as three CNOTs); differing by one gate, by a global phase -1 (XZXZ), by a global phase e^{i pi/2^k} with k = 17..26 (4.7e-8 .. 2.4e-5 rad; float truth is definite for differences above 3e-8 and below 1e-10, in between the pair is skipped as borderline), by a Hadamard on a wire, by a wire permutation, by arity. Truth from the harness simulator (exact equality and equality up to a scalar). equal_circuit_with_options / equal_graph_with_options (graphs optionally pre-simplified) with and without global phase, the shorthands equal_circuit / equal_graph (= up to global phase) and equal_*_dim: Some(true) => truth, Some(false) => not equal (or arities differ), None always allowed and counted; equal_circuit_tensor / equal_graph_tensor <=> identical tensors (exact phases). Non-trivial = a definite answer on a pair that is not syntactically identical. Distinct by hash of the case.",
         assumptions: vec![
             "harness simulator (see selftest)",
             "float pairs whose equality flips between tolerance 1e-10 and 1e-5 are skipped as borderline",
